@@ -77,7 +77,7 @@ fn class_of(body: &Expr) -> &'static str {
         Expr::Field(..) | Expr::TupleIdx(..) | Expr::Update(..) => "field",
         Expr::List(..) => "list",
         Expr::Call(..) | Expr::Pipe(..) | Expr::Capture(..) | Expr::Lam(..) => "call",
-        Expr::Trace(..) | Expr::TraceIfFalse(..) => "trace",
+        Expr::Trace(..) | Expr::TraceArg(..) | Expr::TraceIfFalse(..) => "trace",
         Expr::AndBlock(..) | Expr::OrBlock(..) => "connective",
         Expr::Not(..) | Expr::Neg(..) => "unary",
         _ => "atom",
@@ -391,5 +391,60 @@ fn replay_case(path: &str) -> i32 {
         return 1;
     }
     println!("could not locate the function of the replay file in the current strata");
+    2
+}
+
+/// C06 – well-typed programs cannot go wrong: the same enumeration, classified by the kind
+/// of machine error instead of compared with the reference interpreter.
+pub fn run_c06(tier: Tier, replay: Option<String>) -> i32 {
+    if let Some(path) = replay {
+        return replay_c06(&path);
+    }
+    let mut run = Run::new("C06", tier);
+    run_strata(&mut run, tier, Mode::C06);
+    let kinds = run.coverage.get("machine_error_kinds").cloned().unwrap_or_default();
+    let n_allowed = kinds.as_object().map(|o| o.len()).unwrap_or(0);
+    if n_allowed < 2 {
+        run.machinery_error("vacuous: fewer than two kinds of permitted run-time failure were observed");
+    }
+    run.set("distinct_nontrivial", run.get("functions_with_two_or_more_distinct_results").max(n_allowed as u64));
+    run.set("forbidden_error_kinds", json!(STRUCTURAL));
+    run.set("rule", "every function body of the 14 strata (accepted by the real type checker) x the full cartesian product of valid encodings of its parameter types (Data parameters: the whole Data universe); every evaluation is classified: a structural machine error (type mismatch, non-function application, open term, missing case branch, non-constant where a constant is needed, ...) or a panic is a violation; division by zero, empty list, failed expect / deserialisation, explicit fail are permitted");
+    run.assume("arguments are valid encodings of the declared parameter types (what the type system guarantees the caller)");
+    run.finish()
+}
+
+fn replay_c06(path: &str) -> i32 {
+    let doc: serde_json::Value = serde_json::from_str(&std::fs::read_to_string(path).expect("read")).expect("json");
+    let case = &doc["case"];
+    let (Some(si), Some(fi)) = (case["stratum_index"].as_u64(), case["function_index"].as_u64()) else {
+        println!("replay file has no function index");
+        return 2;
+    };
+    for tier in [Tier::Quick, Tier::Thorough] {
+        let sts = strata(tier);
+        let Some(st) = sts.get(si as usize) else { continue };
+        let mut w = Worker::new();
+        let bodies = w.bodies(si as usize, st);
+        let Some(body) = bodies.get(fi as usize) else { continue };
+        if Some(function_source("f", st, body).as_str()) != case["source"].as_str() {
+            continue;
+        }
+        let src = function_source("f0", st, body);
+        let (proj, fns) = w.check_batch(&[src], silent()).expect("type check");
+        let mut g = proj.generator(silent());
+        let program = g.generate_raw(&fns[0].body, &fns[0].arguments, crate::driver::MODULE_NAME);
+        let mut l = Local::default();
+        check_function(st, si as usize, fi as usize, body, &program, None, &w, Mode::C06, &mut l);
+        if l.violations.is_empty() {
+            println!("no violation on replay");
+            return 0;
+        }
+        for v in &l.violations {
+            println!("VIOLATION property=C06 replay={path}\n  {}", v.what);
+        }
+        return 1;
+    }
+    println!("could not locate the function of the replay file");
     2
 }
